@@ -111,28 +111,35 @@ def shapes_cached(name, fields, bounds):
 
 
 def shapes_for(fields, bounds):
-    """all in-domain shapes: a conditional field is present iff its condition holds; among the
-    applicable trailing optionals the present ones form a prefix (documented in-domain predicate)"""
+    """all shapes: among the trailing optionals whose condition holds the present ones form a prefix (documented in-domain
+    predicate).  A conditional field (if_true / if_false, optional or not) whose condition is FALSE may nevertheless be
+    populated through the public constructor - `stray`: none of them / all of them; the pinned layout omits such a field
+    and the round trip normalises it to absent (None)."""
     out, seen = [], set()
     fn = flag_names(fields)
     for fbits in range(1 << len(fn)):
         flags = {n: bool(fbits >> i & 1) for i, n in enumerate(fn)}
         opts = [f['name'] for f in fields if f.get('optional') and applicable(f, flags)]
-        for nopt in range(len(opts) + 1):
-            for prof in profiles(bounds['S'], bounds['A'], bounds['long'], bool(bounds.get('rich'))):
-                sz = Sizes(prof)
-                _walk_sizes(fields, flags, opts[:nopt], sz)
-                key = (fbits, nopt, tuple(sz.trace))
-                if key in seen:
-                    continue
-                seen.add(key)
-                out.append({'flags': flags, 'present': opts[:nopt], 'prof': prof})
+        has_false = any(not applicable(f, flags) for f in fields)
+        for stray in ((False, True) if has_false else (False,)):
+            for nopt in range(len(opts) + 1):
+                for prof in profiles(bounds['S'], bounds['A'], bounds['long'], bool(bounds.get('rich'))):
+                    sz = Sizes(prof)
+                    _walk_sizes(fields, flags, opts[:nopt], sz, stray)
+                    key = (fbits, stray, nopt, tuple(sz.trace))
+                    if key in seen:
+                        continue
+                    seen.add(key)
+                    out.append({'flags': flags, 'present': opts[:nopt], 'prof': prof, 'stray': stray})
     return out
 
 
-def _walk_sizes(fields, flags, present, sz):
+def _walk_sizes(fields, flags, present, sz, stray=False):
     for f in fields:
-        if not applicable(f, flags) or (f.get('optional') and f['name'] not in present):
+        if not applicable(f, flags):
+            if not stray:
+                continue
+        elif f.get('optional') and f['name'] not in present:
             continue
         _walk_type(f['type'], f.get('subtype'), sz)
 
@@ -149,7 +156,8 @@ def _walk_type(t, sub, sz):
 
 
 def shape_tag(shape):
-    return ','.join([f'{k}={int(v)}' for k, v in shape['flags'].items()] + [f'opt={len(shape["present"])}'])
+    return ','.join([f'{k}={int(v)}' for k, v in shape['flags'].items()] + [f'opt={len(shape["present"])}'] +
+                    (['stray_conditionals'] if shape.get('stray') else []))
 
 
 # ------------------------------------------------------------------------------
@@ -189,7 +197,10 @@ def gen_fields(g, fields, shape):
         if n in shape['flags']:
             kw[n] = exp[n] = shape['flags'][n]       # conditional flags are discriminants
         elif not applicable(f, shape['flags']):
-            kw[n] = exp[n] = None
+            # condition false: the wire has no such field.  stray: it is populated anyway (constructible through the public
+            # constructor); the encoder must drop it and the decoded message has it absent
+            kw[n] = gen_value(g, sz, f['type'], f.get('subtype'), n) if shape.get('stray') else None
+            exp[n] = None
         elif f.get('optional') and n not in shape['present']:
             kw[n] = None
             exp[n] = f.get('absent_decodes_to')       # absent on the wire decodes to the declared default
@@ -510,6 +521,112 @@ def h_message(c, cls_name, S, A, long, part=0, parts=1, rich=False):
 
 
 # ------------------------------------------------------------------------------
+# H1c: compressed classes with highly repetitive (well compressible) content
+# ------------------------------------------------------------------------------
+
+def h_compressed(c, cls_name, count, S=2, classes=5):
+    """the three zlib-compressed classes carrying `count` IDENTICAL records (one record with symbolic leaves, shared).  The
+    zlib stand-in runs in its compressible model: compress() returns an opaque body whose LENGTH is a discriminant chosen
+    between an honest lower bound for deflate (11 + n/1000 bytes) and 'stored' (n + 11), independent of the content, so
+    that a decoder that depends on the compression ratio is exercised (decompressobj(...).decompress(data, max_length) is
+    honoured exactly).  Every symbolic failure is confirmed against the REAL zlib on the path's model before it is reported
+    (the stand-in may be more optimistic than zlib); the real-zlib witness is an obligation of its own."""
+    L = MESSAGES[cls_name]
+    fields, idw = L['fields'], L['id_width']
+    cls = resolve(cls_name)
+    if not c.check(cls is not None, 'class_exists', sig=[cls_name]):
+        return
+    shape = {'flags': {}, 'present': [f['name'] for f in fields if f.get('optional')], 'prof': {'s': [S], 'a': [1]}}
+    g = codec.Gen(c)
+    sym = {'fail': None, 'eq': None}
+    witness = None
+    with codec.installed(c.symbolic):
+        kw, exp_kw = gen_fields(g, fields, shape)
+        g.commit()
+        for f in fields:                                   # `count` copies of the one record (shared symbolic leaves)
+            if f['type'] == 'array' and f.get('subtype', '').startswith('record:') and kw.get(f['name']):
+                kw[f['name']] = exp_kw[f['name']] = list(kw[f['name']]) * count
+        m, exp = cls(**kw), cls(**exp_kw)
+        payload = ref_payload(fields, m)
+        plen = len(payload)
+        cmin = 11 + plen // 1000 + 1
+        cands = sorted({cmin, max(cmin, plen // 33), max(cmin, plen // 32 + 1), max(cmin, plen // 8), plen + 11})
+        if classes < 5:
+            cands = sorted({cands[0], max(cmin, plen // 32 + 1), cands[-1]})   # quick: best case, just above 32:1, stored
+        pick = {}
+
+        def clen(n):
+            if 'i' not in pick:
+                pick['i'] = c.choose(len(cands), 'compressed_length_class')
+            return cands[pick['i']]
+        codec.ZLIB_MODEL['compressible'] = clen if c.symbolic else None
+        try:
+            try:
+                raw = m.serialize()
+            except symex.HarnessError:
+                raise
+            except Exception as e:  # noqa
+                raise_if_harness(e)
+                c.check(False, 'encode_total', sig=[cls_name, f'records={count}'], info=repr(e))
+                return
+            sig = [cls_name, f'records={count}', 'compressed_length_class=%s' % pick.get('i', 'real')]
+            info = {'records': count, 'plain_bytes': plen, 'compressed_bytes': len(raw) - 4 - idw}
+            c.reach('compressed_encoded')
+            c.check(len(raw) >= 4 + idw and (uint_le(raw[0:4]) == len(raw) - 4), 'compressed_length_prefix', sig=sig, info=info)
+            c.check(terms_equal(raw[4:4 + idw], le(L['id'], idw)), 'compressed_wire_layout', sig=sig, info=info)
+            body = raw[4 + idw:]
+            if c.symbolic and isinstance(body, SBytes) and body[:len(codec.ZCTAG)].concrete() == codec.ZCTAG:
+                plain = codec.zc_plain(body.b[len(codec.ZCTAG):])
+                c.check(plain is not None and terms_equal(SBytes(plain), payload), 'compressed_wire_layout', sig=sig, info=info)
+            else:
+                c.check(body_matches(body, payload, True), 'compressed_wire_layout', sig=sig, info=info)
+            try:
+                back = cls.deserialize(0, raw)
+                sym['eq'] = codec.eq_formula(back, exp) if c.symbolic else real_eq(back, exp)
+            except symex.HarnessError:
+                raise
+            except Exception as e:  # noqa
+                raise_if_harness(e)
+                sym['fail'], sym['eq'] = repr(e), False
+            if c.symbolic:
+                model = current_model(c)
+                if model is not None:
+                    witness = (codec.evaluate(model, m), codec.evaluate(model, exp),
+                               bytes(codec._norm(t) if isinstance(codec._norm(t), int) else model.eval(t, model_completion=True).as_long()
+                                     for t in payload))
+            else:
+                witness = (m, exp, bytes(payload))
+        finally:
+            codec.ZLIB_MODEL['compressible'] = None
+    # the real zlib on the witness (in replay: the run itself)
+    real_ok, real_info = None, dict(info)
+    if witness is not None:
+        wm, wexp, wpayload = witness
+        try:
+            real_raw = wm.serialize()
+            real_info['real_compressed_bytes'] = len(real_raw) - 4 - idw
+            real_back = cls.deserialize(0, real_raw)
+            real_ok = (real_eq(real_back, wexp) and int.from_bytes(real_raw[:4], 'little') == len(real_raw) - 4
+                       and zlib.decompress(real_raw[4 + idw:]) == wpayload)
+        except symex.HarnessError:
+            raise
+        except Exception as e:  # noqa
+            raise_if_harness(e)
+            real_ok, real_info['exc'] = False, repr(e)
+    if sym['eq'] is False:
+        # decode of the encoder's own bytes raised / came back different in the model: a verdict only when real zlib agrees
+        if real_ok is False:
+            c.check(False, 'compressed_roundtrip', sig=sig, info={**real_info, 'model_failure': sym['fail']})
+        else:
+            c.note('compressible model failed where real zlib does not (model more optimistic than zlib)', sig, sym['fail'])
+            c.check(True, 'compressed_roundtrip', sig=sig)
+    else:
+        c.check(sym['eq'], 'compressed_roundtrip', sig=sig, info=info)
+    if real_ok is not None:
+        c.check(real_ok, 'compressed_roundtrip_real_zlib', sig=sig[:2], info=real_info)
+
+
+# ------------------------------------------------------------------------------
 # H2: records and primitives on their own (their serialize() differs from serialize_into())
 # ------------------------------------------------------------------------------
 
@@ -710,6 +827,8 @@ META = {
                        'the 4 octets of every IPv4 address', 'the 4 obfuscation key bytes (explicit and generated key)',
                        'obfuscation harness: every data byte and every wire byte'],
     'discriminants': ['message class (158) / record class (8) / primitive (12)', 'value of the flag a conditional field depends on',
+                      'stray_conditionals: condition-false conditional fields left None / all populated',
+                      'compressed harness: number of identical records (1, 100; thorough also 40, 200), compressed-length class (3 / 5)',
                       'number of present trailing optionals (prefix-closed)', 'size profile: byte length of every text/blob, element count of every array',
                       'plain vs obfuscated connection; connection kind follows the message group', 'obfuscation: data length'],
     'bounds': {'quick': {'text/blob byte length': '0..4 (uniform and staggered profiles) plus one 140-byte text', 'array elements': '0..2 (nested arrays too)',
@@ -720,12 +839,24 @@ META = {
     'outside': ['texts/blobs longer and arrays larger than the bound; size profiles other than the uniform / staggered / long-first ones (lengths of '
                 'different leaves are not combined exhaustively)',
                 'non-prefix-closed optionals (a later trailing optional present while an earlier one is absent) - out of the wire domain',
-                'None for a field that is not optional/conditional on the wire; a conditional field set while its flag says absent',
+                'None for a field that is not optional/conditional on the wire',
                 'texts that are not encodable as UTF-8 (lone surrogates); non-canonical IPv4 spellings (leading zeros, hex, short forms)',
                 'the real zlib bit stream: symbolic payloads go through a tagged-identity stand-in; the real zlib sees one model witness per path',
                 'MessageDataclass subclasses outside aioslsk.protocol.messages; classes added to the code but absent from the pinned table are '
                 'reported by the prelude as not covered'],
     'assumptions': ['CPython 3.12 struct/int/bytes/UTF-8 semantics as validated by engine.codec.validate() at the start of every run',
+                    'DOMAIN NORMALISATION for conditional fields (if_true / if_false, optional or not): a value may populate such a field '
+                    'while its condition is false (constructible through the public constructor; shape discriminant stray_conditionals: '
+                    'none / all of them populated with symbolic values). The pinned layout has no such field on the wire, so the reference '
+                    'encoder omits it, wire_layout must match byte for byte, and the round-trip oracle is decode(encode(m)) == m with the '
+                    'condition-false fields normalised to absent (None). That is what "in-domain value" means for a conditional field.',
+                    'ZLIB MODEL: (1) message harness: tagged identity for symbolic payloads, real zlib for concrete ones and for one model '
+                    'witness per path; (2) compressed harness: compress() is an injective uninterpreted function whose result is an opaque '
+                    'body of a length chosen as a discriminant between an honest lower bound for deflate (11 + n/1000 bytes) and stored '
+                    '(n + 11), independent of the content; decompress / decompressobj().decompress(data, max_length) return the plain bytes, '
+                    'max_length honoured exactly (truncation, unconsumed_tail). A failure found in that model is reported only when the real '
+                    'zlib run on the model witness fails too (the model may be more optimistic than zlib); the real-zlib run on 1/100(/40/200) '
+                    'identical records is an obligation of its own (compressed_roundtrip_real_zlib).',
                     'an absent trailing optional decodes to the dataclass default (None; False for JoinRoom.Request.is_private and '
                     'PrivateChatMessage.Response.is_direct, as pinned by the repository tests)'],
 }
@@ -749,6 +880,13 @@ def jobs(tier):
         for part in range(parts):
             out.append({'harness': 'message', 'fn': h_message, 'params': {'cls_name': name, **p, 'part': part, 'parts': parts},
                         'requires': req, **limits})
+    for name in sorted(k for k, v in MESSAGES.items() if v['compressed']):
+        for count in ((1, 100) if tier == 'quick' else (1, 40, 100, 200)):
+            for S in ((2,) if tier == 'quick' else (0, 2, 5)):
+                out.append({'harness': 'compressed', 'fn': h_compressed, **limits,
+                            'params': {'cls_name': name, 'count': count, 'S': S, 'classes': 3 if tier == 'quick' else 5},
+                            'requires': ['compressed_encoded', 'compressed_length_prefix', 'compressed_wire_layout', 'compressed_roundtrip',
+                                         'compressed_roundtrip_real_zlib']})
     for r in RECORDS:
         out.append({'harness': 'element', 'fn': h_element, 'params': {'what': 'record:' + r, **p}, **limits,
                     'requires': ['element_encoded', 'element_layout', 'element_layout_into', 'element_position', 'element_roundtrip']})
